@@ -36,7 +36,7 @@ func (s *skel) tr() {
 // a construct is emitted around a body callback; kinds are listed in skelKinds.
 type bodyFn func(s *skel, inLoop, inSwitch bool)
 
-var loopKinds = []string{"for3", "forcond", "forinf", "range", "rangekey"}
+var loopKinds = []string{"for3", "forcond", "forinf", "range", "rangekey", "rangeself"}
 var branchKinds = []string{"if", "ifelse", "ifelseif", "swtag:last", "swtag:first", "swtag:mid", "swtag:none", "sw:last", "sw:first", "sw:mid", "sw:none",
 	// case expressions that the peephole optimizer rewrites (local+local, local+constant): jump distances over a case
 	// must be those of the rewritten code
@@ -85,6 +85,17 @@ func (s *skel) emitConstruct(kind string, sel int, inLoop, inSwitch bool, body f
 		s.line("for _, v%d := range []int{10, 20, 30} {", v)
 		s.indent++
 		s.line("fmt.Println(v%d)", v)
+		body(0, true, false)
+		s.tr()
+		s.indent--
+		s.line("}")
+	case "rangeself":
+		// the loop variable has the name of the collection it ranges over (the range expression is evaluated outside
+		// the scope of the loop variables)
+		s.line("w%d := []int{10, 20, 30}", v)
+		s.line("for _, w%d := range w%d[n:] {", v, v)
+		s.indent++
+		s.line("fmt.Println(w%d)", v)
 		body(0, true, false)
 		s.tr()
 		s.indent--
@@ -398,7 +409,7 @@ func checkC06(tier string, seed int64) int {
 	agg, st := NewAgg(), &eqStats{}
 	c.runEquiv(progs, "z3", agg, st)
 	agg.Into(c, "")
-	c.Cov("rule", "control skeletons: nestings (depth 1–2 over all 26 construct kinds (incl. switches whose case expressions are case lists / arithmetic the optimizer rewrites, and switches with empty clauses) × continuation branch × {none, break, continue, return, conditional break/continue}; depth 3 seeded sample) of for(3-clause, cond-only, infinite), range(value, key), switch(tagged/tagless × default first/middle/last/absent), if/else-if/else, with a trace print before and after every construct; selectors s0..s3 and loop bound n (assumed ≤ 2) symbolic; quick keeps one skeleton per (kinds, jump) plus every default-clause placement")
+	c.Cov("rule", "control skeletons: nestings (depth 1–2 over all 27 construct kinds (incl. switches whose case expressions are case lists / arithmetic the optimizer rewrites, and switches with empty clauses) × continuation branch × {none, break, continue, return, conditional break/continue}; depth 3 seeded sample) of for(3-clause, cond-only, infinite), range(value, key), switch(tagged/tagless × default first/middle/last/absent), if/else-if/else, with a trace print before and after every construct; selectors s0..s3 and loop bound n (assumed ≤ 2) symbolic; quick keeps one skeleton per (kinds, jump) plus every default-clause placement")
 	c.Cov("paths_compared", st.compared)
 	c.Assumption("loop bound n ≤ 2 (unwinding: engine step bound 6e6 per path, exceeding it is reported as unwind, never as success)")
 	c.Assumption("trace = fmt.Println of distinct constants; the compared observable is the exact output text and the returned value")
